@@ -302,3 +302,135 @@ def oarray(obj, dtype=None, **kw):
     if _has_sym(obj):
         return np.array(obj, dtype=object, **{k: v for k, v in kw.items() if k in ("copy", "ndmin")})
     return np.array(obj, dtype=dtype, **kw)
+
+
+# ----------------------------------------------------------------------------- more linear algebra (contracts)
+def lu_factor(M, **kw):
+    """contract of scipy.linalg.lu_factor: P A = L U with partial pivoting (the pivot choice forks on a
+    comparison of squares), L unit lower and U upper stored in one array, piv[k] = row swapped with k"""
+    A = np.array(M, dtype=object).copy()
+    n = A.shape[0]
+    piv = np.arange(n)
+    for k in range(n):
+        p = k
+        for r in range(k + 1, n):
+            if lift(A[r, k]) * A[r, k] > lift(A[p, k]) * A[p, k]:
+                p = r
+        if p != k:
+            A[[k, p], :] = A[[p, k], :]
+        piv[k] = p
+        for r in range(k + 1, n):
+            A[r, k] = lift(A[r, k]) / A[k, k]
+            A[r, k + 1:] = A[r, k + 1:] - A[r, k] * A[k, k + 1:]
+    return A, piv
+
+
+def lu_solve(lu_and_piv, b, trans=0, **kw):
+    lu, piv = lu_and_piv
+    if trans not in (0, "N"):
+        raise NotImplementedError("lu_solve stub: trans != 0")
+    n = lu.shape[0]
+    b = np.asarray(b)
+    bb = np.array(b.reshape(n, -1), dtype=object).copy()
+    for k in range(n):
+        p = int(piv[k])
+        if p != k:
+            bb[[k, p], :] = bb[[p, k], :]
+    for i in range(n):
+        for k in range(i):
+            bb[i, :] = bb[i, :] - lu[i, k] * bb[k, :]
+    for i in range(n - 1, -1, -1):
+        for k in range(i + 1, n):
+            bb[i, :] = bb[i, :] - lu[i, k] * bb[k, :]
+        for c in range(bb.shape[1]):
+            bb[i, c] = lift(bb[i, c]) / lu[i, i]
+    return bb.reshape(b.shape)
+
+
+def scipy_cholesky(a, lower=False, **kw):
+    L = cholesky(a)
+    return L if lower else L.T.copy()
+
+
+def cho_factor(a, lower=False, **kw):
+    return scipy_cholesky(a, lower=lower), lower
+
+
+def cho_solve(c_and_lower, b, **kw):
+    c, lower = c_and_lower
+    L = c if lower else c.T
+    return solve_triangular(L.T, solve_triangular(L, b, lower=True), lower=False)
+
+
+def slogdet(M):
+    d = lift(det(M))
+    if d > 0:
+        return 1.0, d.log()
+    if d < 0:
+        return -1.0, (-d).log()
+    return 0.0, -np.inf
+
+
+def np_solve(A, B):
+    return gauss_solve(A, B)
+
+
+class SymTimedelta:
+    """contract of datetime.timedelta for a symbolic duration: the duration is held in whole microseconds
+    (rounded to nearest), .days / .seconds / .microseconds are its normalised components"""
+
+    def __init__(self, days=0, seconds=0, microseconds=0, milliseconds=0, minutes=0, hours=0, weeks=0):
+        tot = ((((weeks * 7 + days) * 24 + hours) * 60 + minutes) * 60 + seconds) * 1000000 + milliseconds * 1000 + microseconds
+        tot = lift(tot)
+        self._us = (tot + lift(1) / 2) // 1   # round to nearest microsecond (ties: upwards; half-even in CPython)
+        self.days = self._us // 86400000000
+        rem = self._us - self.days * 86400000000
+        self.seconds = rem // 1000000
+        self.microseconds = rem - self.seconds * 1000000
+
+    def total_seconds(self):
+        return self._us / 1000000
+
+
+def _dispatch(stub, orig):
+    def f(*a, **k):
+        if any(_has_sym(x) for x in a) or any(_has_sym(x) for x in k.values()):
+            return stub(*a, **k)
+        return orig(*a, **k)
+    f.__name__ = getattr(orig, "__name__", "stub")
+    f.__symnp_stub__ = True
+    return f
+
+
+def _auto_table():
+    import datetime
+    import scipy.linalg as sl
+    import scipy.special as sp
+    from . import funcs
+    T = [
+        (np.linalg.cholesky, cholesky), (sl.cholesky, scipy_cholesky), (sl.solve_triangular, solve_triangular),
+        (sl.solve, gauss_solve), (np.linalg.solve, np_solve), (np.linalg.inv, adj_inverse), (sl.inv, adj_inverse),
+        (np.linalg.det, det), (sl.det, det), (np.linalg.slogdet, slogdet), (sl.lu_factor, lu_factor), (sl.lu_solve, lu_solve),
+        (sl.cho_factor, cho_factor), (sl.cho_solve, cho_solve), (np.isfinite, funcs.isfinite), (np.minimum, funcs.minimum),
+        (np.maximum, funcs.maximum), (sp.erf, funcs.erf), (sp.erfcx, funcs.erfcx), (np.logaddexp, funcs.logaddexp),
+        (np.divmod, np_divmod), (datetime.timedelta, SymTimedelta),
+    ]
+    return {id(o): (o, s) for o, s in T}
+
+
+_AUTO = None
+
+
+def autopatch(h, module):
+    """replace, in `module`'s namespace, every compiled routine we have a contract for by a dispatcher that runs the
+    contract when an argument is symbolic and the original otherwise (so a re-factoring that reaches for a different
+    LAPACK/special routine is still executed symbolically instead of ending in 'inconclusive')"""
+    global _AUTO
+    if _AUTO is None:
+        _AUTO = _auto_table()
+    names = {}
+    for k, v in list(vars(module).items()):
+        hit = _AUTO.get(id(v))
+        if hit is not None and hit[0] is v:
+            names[k] = _dispatch(hit[1], v)
+    return names
